@@ -130,11 +130,15 @@ def local_limit_runs(tier, viols):
         # 1 GB + the 3 GB every job is given on top) for a few refreshes of the free resources;
         # the jobs after them fit the limit again
         ("vmem_overuse", [{"threads": 1, "mem_gb": 1}] * 4, 1, 4),
+        # an address space limit that is no whole number of GB (--localvmem=8 under ulimit -v 7000 MB, less what
+        # mrp itself maps; the ulimit alone is not looked at without --localvmem) and a job whose request
+        # (4 GB + the 3 GB every job is given on top) lies above it: clamped, not refused
+        ("vmem_uneven", [{"threads": 1, "mem_gb": 4}, {"threads": 1, "mem_gb": 1}, {"threads": 1, "mem_gb": 1}, {"threads": 1, "mem_gb": 1}], 2, 8),
     ]
     OVERRIDES = {"TOP.W0": {"chunk.threads": 8}, "TOP.W1": {"chunk.mem_gb": 9, "chunk.threads": 1.5}, "TOP.W2": {"chunk.threads": -1, "chunk.mem_gb": -1},
                  "TOP.W3": {"chunk.threads": 0, "chunk.mem_gb": 0}}
     if tier == "quick":
-        configs = configs[:3] + configs[-4:]
+        configs = configs[:3] + configs[-5:]
     report = []
     progs = []
     for name, ress, cores, mem in configs:
@@ -151,11 +155,12 @@ def local_limit_runs(tier, viols):
                               cores=cores, mem=mem,
                               vmap=({"TOP.W0[]/main/0": 7000, "TOP.W1[]/main/0": 7000} if name == "vmem_overuse" else None),
                               delays=({"TOP.W0[]/main/0": 7000, "TOP.W1[]/main/0": 7000} if name == "vmem_overuse" else None),
-                              extra_args=(["--localvmem=8"] if name == "vmem_overuse" else ()))
+                              extra_args=(["--localvmem=8"] if name in ("vmem_overuse", "vmem_uneven") else ()),
+                              rlimit_as_mb=(7000 if name == "vmem_uneven" else 0))
             if name == "overrides":
                 json.dump(OVERRIDES, open(os.path.join(c.wd, "overrides.json"), "w"))
                 c.extra.append("--overrides=" + os.path.join(c.wd, "overrides.json"))
-            rc_, dt = c.run(timeout=(60 if name in ("fraction_then_all", "whole_mem", "overrides") else 90 if name == "vmem_overuse" else 180))
+            rc_, dt = c.run(timeout=(60 if name in ("fraction_then_all", "whole_mem", "overrides", "vmem_uneven") else 90 if name == "vmem_overuse" else 180))
             evs = c.events()
             running = {}
             peak_t = peak_m = 0.0
@@ -165,7 +170,7 @@ def local_limit_runs(tier, viols):
                 out = open(os.path.join(c.wd, "mrp.out"), errors="replace").read()
             except OSError:
                 pass
-            rp = {"program.mro": c.mro, "limits.txt": "--localcores=%d --localmem=%d" % (cores, mem), "mrp.out": out[-3000:]}
+            rp = {"program.mro": c.mro, "limits.txt": "--localcores=%d --localmem=%d%s" % (cores, mem, " --localvmem=8, under ulimit -v %d (kB)" % (7000 * 1024) if name == "vmem_uneven" else ""), "mrp.out": out[-3000:]}
             if name == "overrides":
                 rp["overrides.json"] = json.dumps(OVERRIDES)
             for e in evs:
